@@ -155,3 +155,43 @@ package gtab
 //@   loop 0
 //@     invariant 1 <= i && i <= k && k == len(repl) && len(seq) == len(ctx.seq) + k - 1 && a + k <= len(seq) && stackinv(ctx) && len(seq) <= 1099511627776
 //@     decreases k - i
+
+// fixStackMerge: effect on the stack invariant ASSUMED (not verified).
+//@ assume func (ctx *Context) fixStackMerge(pos []int)
+//@   requires ctx != nil && len(pos) >= 1
+//@   ensures stackinv(ctx) && len(ctx.stack) == old(len(ctx.stack))
+//@   modifies all(nested), allelems(int)
+
+// Ligature substitution: the matched components are at matchPos (ascending,
+// starting at a), the glyphs skipped by the lookup flags at skipPos; together
+// they are exactly the positions a..p-1, and the two lists are separate arrays.
+//@ func (l *Gsub4_1) apply(ctx *Context, a int, b int) (next int)   props: C06 C07
+//@   opt assume_make=1
+//@   requires l != nil && ctx != nil && 0 <= a && a < b && b <= len(ctx.seq) && stackinv(ctx) && keepOK(ctx) && llOK(ctx)
+//@   requires forall g uint16 :: has(l.Cov, g) ==> 0 <= l.Cov[g] && l.Cov[g] < len(l.Repl)
+//@   requires forall k int :: 0 <= k && k < len(ctx.stack) ==> !fresh(ctx.stack[k].InputPos)
+//@   ensures next >= -1 && next <= len(ctx.seq) && stackinv(ctx) && len(ctx.seq) <= 1099511627776
+//@   ensures next < 0 ==> len(ctx.stack) == old(len(ctx.stack)) && len(ctx.seq) == old(len(ctx.seq))
+//@   ensures next >= 0 ==> next > a
+//@   modifies ctx.seq, ctx.seq[*], all(nested), allelems(glyph.Info), allelems(int), allelems(rune)
+//@   loop 0
+//@     invariant (isnil(matchPos) || fresh(matchPos)) && (isnil(skipPos) || fresh(skipPos)) && (isnil(text) || fresh(text)) && stackinv(ctx) && keepOK(ctx) && len(ctx.seq) == old(len(ctx.seq)) && len(ctx.stack) == old(len(ctx.stack)) && (forall k int :: 0 <= k && k < len(ctx.stack) ==> !fresh(ctx.stack[k].InputPos))
+//@     invariant ref(seq) == ref(ctx.seq) && off(seq) == off(ctx.seq) && len(seq) == len(ctx.seq) && ref(seq) == old(ref(ctx.seq))
+//@   loop 1
+//@     invariant (isnil(matchPos) || fresh(matchPos)) && (isnil(skipPos) || fresh(skipPos)) && (isnil(text) || fresh(text)) && stackinv(ctx) && keepOK(ctx) && len(ctx.seq) == old(len(ctx.seq)) && len(ctx.stack) == old(len(ctx.stack)) && (forall k int :: 0 <= k && k < len(ctx.stack) ==> !fresh(ctx.stack[k].InputPos))
+//@     invariant ref(seq) == ref(ctx.seq) && off(seq) == off(ctx.seq) && len(seq) == len(ctx.seq) && ref(seq) == old(ref(ctx.seq))
+//@     invariant isnil(skipPos) || ref(skipPos) != ref(matchPos)
+//@     invariant a < p && p <= b && len(matchPos) == iter + 1 && len(matchPos) + len(skipPos) == p - a && matchPos[0] == a
+//@     invariant forall k int :: 0 <= k && k < len(skipPos) ==> a < skipPos[k] && skipPos[k] < p
+//@   loop 2
+//@     invariant (isnil(matchPos) || fresh(matchPos)) && (isnil(skipPos) || fresh(skipPos)) && (isnil(text) || fresh(text)) && stackinv(ctx) && keepOK(ctx) && len(ctx.seq) == old(len(ctx.seq)) && len(ctx.stack) == old(len(ctx.stack)) && (forall k int :: 0 <= k && k < len(ctx.stack) ==> !fresh(ctx.stack[k].InputPos))
+//@     invariant ref(seq) == ref(ctx.seq) && off(seq) == off(ctx.seq) && len(seq) == len(ctx.seq) && ref(seq) == old(ref(ctx.seq))
+//@     invariant isnil(skipPos) || ref(skipPos) != ref(matchPos)
+//@     invariant a < p && p <= b && len(matchPos) == rangeindex + 1 && len(matchPos) + len(skipPos) == p - a && matchPos[0] == a
+//@     invariant forall k int :: 0 <= k && k < len(skipPos) ==> a < skipPos[k] && skipPos[k] < p
+//@     decreases b - p
+//@   loop 3
+//@     invariant (isnil(matchPos) || fresh(matchPos)) && len(matchPos) >= 1 && stackinv(ctx) && len(ctx.seq) == old(len(ctx.seq)) && len(ctx.stack) == old(len(ctx.stack)) && (forall k int :: 0 <= k && k < len(ctx.stack) ==> !fresh(ctx.stack[k].InputPos))
+//@     invariant ref(seq) == ref(ctx.seq) && off(seq) == off(ctx.seq) && len(seq) == len(ctx.seq) && ref(seq) == old(ref(ctx.seq))
+//@     invariant a < p && p <= b && len(matchPos) == len(lig.In) + 1 && len(matchPos) + len(skipPos) == p - a
+//@     invariant forall k int :: 0 <= k && k < len(skipPos) ==> a < skipPos[k] && skipPos[k] < p
